@@ -140,6 +140,12 @@ pub fn run_cases_lane(run: &Run, prop: &str, lo: u64, n: u64, chunk: u64, descri
                                     if !v["s"].is_null() { run.sample_cap(8, || v["s"].clone()); }
                                     if let Some(arr) = v["v"].as_array() { for x in arr {
                                         if x[0].as_str() == Some("C13-INCONCLUSIVE") { run.inconclusive(x[1].as_str().unwrap_or("").to_string()); continue; }
+                                        let sg = x[0].as_str().unwrap_or("");
+                                        if (sg.contains("|cpu-budget|") || sg.contains("|alloc-budget|")) && confirm_deaths() && !dies_again(prop, tier, run.seed, slot, env, idx, wall_limit) {
+                                            run.count("budget_overrun_not_reproduced");
+                                            run.inconclusive(format!("case {}: {} did not repeat in a fresh worker (not a verdict)", idx, sg));
+                                            continue;
+                                        }
                                         run.violation(x[0].as_str().unwrap_or("?"), x[1].as_str().unwrap_or(""), json!({"idx": idx, "detail": x[2]})); } }
                                 }
                                 begun = None;
@@ -166,6 +172,12 @@ pub fn run_cases_lane(run: &Run, prop: &str, lo: u64, n: u64, chunk: u64, descri
                         run.eval();
                         if killed.load(Ordering::Relaxed) {
                             run.inconclusive(format!("case {} exceeded the {} s wall-clock watchdog (not a verdict)", idx, wall_limit.as_secs()));
+                        } else if confirm_deaths() && !prop.starts_with("C13") && !dies_again(prop, tier, run.seed, slot, env, idx, wall_limit) {
+                            // cases are deterministic: a death that does not repeat in a fresh worker came from the environment
+                            // (observed: per-thread CPU clocks jumping by ~15 s in all workers when the VM was snapshotted)
+                            let (kind, _, _) = classify(&xline, &tail, status);
+                            run.count("worker_death_not_reproduced");
+                            run.inconclusive(format!("case {}: worker died ({}) but the case completes in a fresh worker (not a verdict)", idx, kind));
                         } else {
                             let (kind, entry, extra) = classify(&xline, &tail, status);
                             let (labels, wit) = describe(idx);
@@ -185,6 +197,35 @@ pub fn run_cases_lane(run: &Run, prop: &str, lo: u64, n: u64, chunk: u64, descri
         }
     });
     for (k, v) in total_counters.into_inner().unwrap() { run.add(&k, v); }
+}
+
+fn confirm_deaths() -> bool { std::env::var("VERIF_NO_CONFIRM").is_err() }
+
+/// Re-run one case alone in a fresh worker; true if the worker dies (or reports a budget overrun) again.
+fn dies_again(prop: &str, tier: &str, seed: u64, slot: usize, env: &[(String, String)], idx: u64, wall: Duration) -> bool {
+    let mut wp = spawn(prop, tier, seed, slot + 1000, env);
+    let _ = writeln!(wp.stdin, "R {} {}", idx, idx + 1).and_then(|_| wp.stdin.flush());
+    let pid = wp.child.id();
+    let done = Arc::new(AtomicBool::new(false));
+    let killed = Arc::new(AtomicBool::new(false));
+    let wd = { let (done, killed) = (done.clone(), killed.clone()); std::thread::spawn(move || { let t0 = Instant::now(); while !done.load(Ordering::Relaxed) { std::thread::sleep(Duration::from_millis(200)); if t0.elapsed() > wall { killed.store(true, Ordering::Relaxed); unsafe { libc::kill(pid as i32, libc::SIGKILL); } break; } } }) };
+    let mut line = String::new();
+    let mut completed = false;
+    let mut overrun = false;
+    loop {
+        line.clear();
+        if wp.stdout.read_line(&mut line).unwrap_or(0) == 0 { break; }
+        if line.starts_with("E ") { if line.contains("|cpu-budget|") || line.contains("|alloc-budget|") { overrun = true; } }
+        if line.starts_with("D ") { completed = true; break; }
+    }
+    done.store(true, Ordering::Relaxed);
+    let _ = wd.join();
+    drop(wp.stdin);
+    let _ = wp.child.kill();
+    let _ = wp.child.wait();
+    let _ = std::fs::remove_file(&wp.stderr_path);
+    if killed.load(Ordering::Relaxed) { return false; } // a hang on the re-run is no confirmation either
+    !completed || overrun
 }
 
 fn classify(xline: &Option<String>, stderr_tail: &str, status: Option<std::process::ExitStatus>) -> (String, String, String) {
